@@ -165,7 +165,7 @@ def monitor_smap(ctx, smap, known, case, where):
 
 def run_smaps(ctx, cases):
     servers = [mc.FakeServer(i) for i in range(16)]
-    lines, impl, jc = [], [], []
+    lines, impl, jc, seqs = [], [], [], []
     for (vers, ops) in cases:
         sm = build_smap(vers, ops, servers)
         case = {"kind": "smap", "vers": [mc.enc_ver(v) for v in vers], "ops": [list(o) for o in ops]}
@@ -174,6 +174,7 @@ def run_smaps(ctx, cases):
         jc.append(case)
         known = ref_known(vers, ops)
         monitor_smap(ctx, sm, known, case, "function")
+        seqs.append(real_seqnum_choice(ctx, sm, known, servers, case))
         nv = len(set(known.values()))
         ctx.case(("smap", lines[-1]) if nv >= 2 else None)
         ctx.count("smap-versions:%d" % min(nv, 4))
@@ -184,8 +185,45 @@ def run_smaps(ctx, cases):
     model = ctx.model(lines)
     ctx.compare("ServerMap query functions (versionmap, shares_available, (un)recoverable, best, highest_seqnum, "
                 "unrecoverable_newer, needs_merge, sharemap, …)", jc, impl, model)
+    if model is not None:
+        # the sequence number the real Publish.publish() / Publish.update() choose for this servermap vs newSeqnum
+        sc, si, sm_ = [], [], []
+        for c, q, m in zip(jc, seqs, model):
+            if q is not None:
+                nxt = m.rsplit("next=", 1)[-1]
+                sc.append(c); si.append(q); sm_.append(";".join("%s=%s" % (f.split("=")[0], nxt) for f in q.split(";")))
+        ctx.compare("sequence number chosen by the real Publish.publish() and Publish.update() for a servermap "
+                    "(model: newSeqnum = highest_seqnum()+1)", sc, si, sm_)
     if jc:
         ctx.sample({"smap": lines[-1][:300], "impl": impl[-1][:300]})
+
+
+def real_seqnum_choice(ctx, sm, known, servers, case):
+    """_new_seqnum as set by the real publish() and update() set-up code when handed this servermap"""
+    from allmydata.mutable.common import MODE_WRITE
+    rec = mc.ref_recoverable(known)
+    if not known:
+        return None
+    sm.set_last_update(MODE_WRITE, 0)
+    some = max(rec, key=lambda v: (v[0], v[1])) if rec else sorted(known.values(), key=lambda v: (v[0], v[1]))[0]
+    out = []
+    for op in ("publish", "update"):
+        if op == "update" and not rec:
+            continue                  # update() is only reached with a recoverable version to update
+        try:
+            p, _err = mc.real_publish(some[5], max(some[6], some[5]), servers, sm, mdmf=(some[2] is None), op=op,
+                                      version=some)
+            seq = getattr(p, "_new_seqnum", None)
+        except Exception:
+            seq = None
+        if seq is None:
+            continue
+        out.append("%s=%d" % (op, seq))
+        ctx.count("seqnum-choice:" + op)
+        if any(v[0] >= seq for v in known.values()):
+            ctx.violation("Publish.%s() chose seqnum %d; its servermap holds seqnums %r" % (
+                op, seq, sorted(set(v[0] for v in known.values()))), case, "seqnum-not-above-survey-function-" + op)
+    return ";".join(out) or None
 
 
 def parse_replay_vers(toks):
@@ -336,15 +374,25 @@ def gen_history(rng, thorough=False):
     steps = [("create", rng.randbytes(rng.choice([0, 5, 20, 40])).hex())]
     npub = rng.randrange(1, 6)
     pubs = 1
+    after_partial = False
     while pubs <= npub:
         r = rng.random()
         if r < 0.45:
             down = sorted(rng.sample(range(S), rng.randrange(0, min(S, 3) + 1))) if rng.random() < 0.4 else []
-            if rng.random() < 0.25:
+            if pubs < npub and S >= 2 and rng.random() < 0.3:
+                # servers that answer the survey but fail every write of the next publish: it fails part-way and
+                # leaves shares of a newer seqnum on the few servers that still accepted writes
+                keep = rng.sample(range(S), rng.randrange(1, max(2, S // 3 + 1)))
+                steps.append(("wfail", sorted(set(range(S)) - set(keep))))
+                steps.append(("pub", rng.randbytes(rng.choice([7, 20, 33])).hex(), []))
+                pubs += 1
+                after_partial = True
+            if rng.random() < (0.6 if after_partial else 0.25):
                 steps.append(("update", rng.randbytes(rng.randrange(1, 20)).hex(), rng.randrange(0, 41), down))
             else:
                 steps.append(("pub", rng.randbytes(rng.choice([0, 7, 20, 33])).hex(), down))
             pubs += 1
+            after_partial = False
         elif r < 0.65:
             steps.append(("stale", rng.randrange(0, pubs), sorted(rng.sample(range(S), rng.randrange(1, S + 1)))))
         elif r < 0.75:
@@ -471,6 +519,7 @@ def run_history(ctx, h, acc):
                 snaps = []         # share-file snapshots taken before each publish
                 node = rnode = None
                 my_seqs = []
+                wfail = set()
 
                 def settle_publishes():
                     for rec in hooks.publishes:
@@ -480,7 +529,8 @@ def run_history(ctx, h, acc):
                         p = rec["p"]
                         surveyed, seq = rec["surveyed"], rec.get("seqnum")
                         if seq is not None:
-                            ctx.case(("publish-seq", tuple(sorted(set(surveyed))), seq))
+                            ctx.case(("publish-seq", rec["kind"], tuple(sorted(set(surveyed))), seq))
+                            ctx.count("grid-%s-survey-%s" % (rec["kind"], "one-seqnum" if len(set(surveyed)) <= 1 else "several-seqnums"))
                             if any(s >= seq for s in surveyed):
                                 ctx.violation("publish chose seqnum %d, its servermap held seqnums %r" % (seq, sorted(set(surveyed))),
                                               case, "seqnum-not-above-survey-grid")
@@ -510,9 +560,17 @@ def run_history(ctx, h, acc):
                         my_seqs.append(hooks.publishes[-1]["seqnum"])
                         rnode = reader.create_node_from_uri(node.get_uri())
                         si = node.get_storage_index()
+                    elif kind == "wfail":
+                        wfail = set(step[1])
                     elif kind in ("pub", "update"):
                         snaps.append(mc.snapshot_files(g, si))
                         set_down(step[-1])
+                        for i in g.wrappers:
+                            g.wrappers[i].fault = (lambda m, a, kw: "error" if m == "slot_testv_and_readv_and_writev" else None) \
+                                if i in wfail else None
+                        if wfail:
+                            ctx.count("grid-publish-with-write-failures")
+                        wfail = set()
                         npub = len(hooks.publishes)
                         try:
                             if kind == "pub":
@@ -529,6 +587,8 @@ def run_history(ctx, h, acc):
                             ctx.count("grid-publish-error:" + mc.exc_name(e))
                             ok = False
                         set_down([])
+                        for i in g.wrappers:
+                            g.wrappers[i].fault = None
                         settle_publishes()
                         new = [r for r in hooks.publishes[npub:] if r.get("seqnum") is not None]
                         if ok and new:
